@@ -443,5 +443,19 @@ def rule_c04_who_writes(ctx):
               detail=writers, bad_desc="unexpected writer(s) of the remaining request-body length: %s" % writers)
 
 
-C08_RULES = [rule_c08_readers, rule_c08_completion]
-C04_RULES = [rule_c04_write, rule_c04_direct, rule_c04_who_writes]
+def rule_c08_close_marks_connection(ctx):
+    """C08's last clause (`the connection is always marked for closing` for a close-delimited body) is C10's
+    recording rule R10.1 + verdict rule R10.3, shared"""
+    from . import rules_c10
+    rules_c10.rule_instances(ctx)
+    rules_c10.rule_verdict(ctx)
+
+
+C08_RULES = [rule_c08_readers, rule_c08_completion, rule_c08_close_marks_connection]
+def rule_c04_exact_min(ctx):
+    """`each body write copies min(input, output space, remaining)`: the exactness half (nothing held back) is R18.5, shared"""
+    from .rules_c18 import rule_sized_exact
+    rule_sized_exact(ctx)
+
+
+C04_RULES = [rule_c04_write, rule_c04_exact_min, rule_c04_direct, rule_c04_who_writes]
